@@ -287,7 +287,7 @@ pub fn c01_cases(b: &Bounds) -> Vec<CaseDesc> {
     for d in [50usize, 300] {
         cases.push(CaseDesc::Chain { depth: d });
     }
-    for (kind, n) in [("classes", 300usize), ("classes", 4200), ("props", 300), ("props", 4200), ("sstr", 300), ("sstr", 4200), ("instances", 70_000), ("oddnames", 0), ("namelens", 0), ("widetypes", 4100), ("hugeblob", 17_000_000)] {
+    for (kind, n) in [("classes", 300usize), ("classes", 4200), ("props", 300), ("props", 4200), ("sstr", 300), ("sstr", 4200), ("instances", 70_000), ("oddnames", 0), ("namelens", 0), ("widetypes", 4100), ("hugeblob", 17_000_000), ("hugeblob", 16_800_000)] {
         cases.push(CaseDesc::Many { kind: kind.to_owned(), n });
     }
     cases
